@@ -3,8 +3,13 @@ use crate::ffi::guarded;
 use riti::verif_hooks as h;
 use serde_json::{json, Value};
 
+/// The members of a character class, by running the predicate over every scalar value.  A class that suddenly has
+/// thousands of members (a predicate that aliases code points) is cut to U+0000..U+2FFF - enough to differ from the
+/// transcribed class (TablesAgree breaks) and small enough for the generated tables to compile, so that the streams
+/// still run and find the input.
 fn class_members(f: impl Fn(char) -> bool) -> Vec<u32> {
-    (0u32..=0x10FFFF).filter_map(char::from_u32).filter(|&c| f(c)).map(|c| c as u32).collect()
+    let all: Vec<u32> = (0u32..=0x10FFFF).filter_map(char::from_u32).filter(|&c| f(c)).map(|c| c as u32).collect();
+    if all.len() > 4000 { all.into_iter().filter(|&c| c < 0x3000).collect() } else { all }
 }
 
 pub fn dump(probe_layout_json: &str) -> Value {
